@@ -618,6 +618,9 @@ Definition remove_diff_disk (g : cfg) (m : mem) (d : dname) : prog (mem * res) :
   if negb (mode_eqb (m_mode m) RW) then Ret (m, Refused) else
   if odname_eqb (Some d) (i_head (m_info m)) then Ret (m, Refused) else
   if odname_eqb (i_parent (m_info m)) (Some d) then Ret (m, Refused) else
+  (* /repo 67d4059: "Can't delete base snapshot" *)
+  if match m_disks m d with Some x => match d_parent x with None => true | Some _ => false end | None => false end
+  then Ret (m, Refused) else
   t_ <- remove_disk_node g m d ;;
   let '(m1, e1) := t_ in
   if negb (is_ok e1) then Ret (m1, e1) else
